@@ -200,17 +200,30 @@ int x509_validity_check(time_t not_before, time_t not_after, time_t now, int max
 	return 1;
 }
 
+
+// ctime() formats into one static buffer shared by all threads
+static const char *x509_ctime(const time_t *tv, char buf[32])
+{
+#if defined(WIN32) || defined(_WIN32)
+	if (ctime_s(buf, 32, tv) != 0) return "(null)\n";
+#else
+	if (!ctime_r(tv, buf)) return "(null)\n";
+#endif
+	return buf;
+}
+
 int x509_validity_print(FILE *fp, int fmt, int ind, const char *label, const uint8_t *d, size_t dlen)
 {
+	char tbuf[32];
 	time_t tv;
 
 	format_print(fp, fmt, ind, "%s\n", label);
 	ind += 4;
 
 	if (x509_time_from_der(&tv, &d, &dlen) != 1) goto err;
-	format_print(fp, fmt, ind, "notBefore: %s", ctime(&tv));
+	format_print(fp, fmt, ind, "notBefore: %s", x509_ctime(&tv, tbuf));
 	if (x509_time_from_der(&tv, &d, &dlen) != 1) goto err;
-	format_print(fp, fmt, ind, "notAfter: %s", ctime(&tv));
+	format_print(fp, fmt, ind, "notAfter: %s", x509_ctime(&tv, tbuf));
 	if (asn1_length_is_zero(dlen) != 1) goto err;
 	return 1;
 err:
